@@ -18,6 +18,7 @@
 (* about the radio itself (machinery), never the code.                         *)
 EXTENDS NetNode, Json, IOUtils
 Traces == JsonDeserialize(IOEnv.TRACE_FILE)
+N == INSTANCE Network          \* Listening(p, addr, lvl, allowMc, prefix, suffix): the C07 state, on the radio's true registers
 VARIABLES tid, l, verdict
 tvars == <<vars, tid, l, verdict>>
 Tr == Traces[tid]
@@ -72,9 +73,11 @@ PopV(e) ==
   ELSE IF rx[n] = <<>> \/ Head(rx[n]) # Fr(e.f) THEN <<"drift.RxOrder", "payload read is not the head of the modelled FIFO">>
   ELSE <<"ok", "">>
 
+Listens(x) == N!Listening(x.proj, x.n, x.lvl, x.amc, Tr.prefix, Tr.suffix)
 RetV(e) ==
   LET n == e.n IN
   IF call[n] = NoFrame THEN <<"drift.Ret", "return without a call">>
+  ELSE IF ~Listens(e) THEN <<"C07.Listening", "the call returned on node " \o ToString(n) \o " without the radio listening">>
   ELSE IF tx[n] # NoTx THEN OwedClause(n)
   ELSE IF res[n] = "none" /\ wait[n] # NoFrame THEN
        IF e.res THEN <<"C13.TrueOnlyIfArrived", "write() returned True while no NETWORK_ACK had arrived">> ELSE <<"ok", "timeout">>
@@ -97,8 +100,10 @@ DeqV(e) ==
   ELSE IF \E i \in 1..Len(deliv) : deliv[i] = <<n, f>> THEN <<"C05.Delivered", "a frame was delivered to the application twice">>
   ELSE <<"C05.Delivered", "the application read a frame the algorithm does not deliver here (altered, or never received)">>
 
-EndV ==
-  IF \E n \in Tree : tx[n] # NoTx THEN OwedClause(CHOOSE n \in Tree : tx[n] # NoTx)
+EndV(e) ==
+  IF \E i \in 1..Len(e.nodes) : ~Listens(e.nodes[i])
+  THEN <<"C07.Listening", "at quiescence node " \o ToString(e.nodes[CHOOSE i \in 1..Len(e.nodes) : ~Listens(e.nodes[i])].n) \o " is not listening">>
+  ELSE IF \E n \in Tree : tx[n] # NoTx THEN OwedClause(CHOOSE n \in Tree : tx[n] # NoTx)
   ELSE IF \E n \in Tree : q[n] # <<>> THEN
        LET n == CHOOSE n \in Tree : q[n] # <<>> IN
        IF Head(q[n]).dst = MCAST THEN <<"C14.ExactlyLevel", "a multicast heard by the radio never reached the application">>
@@ -150,7 +155,7 @@ Step ==
                 /\ UNCHANGED <<q, tx, wait, res, call, cache, nw, loss, acks, deliv, rets, popped, mlvl>>
                 /\ verdict' = verdict
            ELSE UNCHANGED vars /\ verdict' = <<"drift.Fifo", "injection into a full FIFO">>
-     \/ /\ e.k = "end" /\ UNCHANGED vars /\ verdict' = EndV
+     \/ /\ e.k = "end" /\ UNCHANGED vars /\ verdict' = EndV(e)
 
 TSpec == TInit /\ [][Step]_tvars
 \* the model's own invariants are evaluated in every state the real execution drives it through
